@@ -4,6 +4,7 @@ import (
 	"time"
 	"unsafe"
 
+	"github.com/plgd-dev/go-coap/v3/pkg/verifhook"
 	"go.uber.org/atomic"
 )
 
@@ -58,6 +59,7 @@ func (m *KeepAliveMonitor[C]) CheckInactivity(now time.Time, cc C) {
 	if !now.After(start.Add(m.duration)) {
 		return
 	}
+	verifhook.Yield("keepalive.check.beforeCount", 0)
 	m.lastReport.Store(now)
 	m.keepAlive.OnInactive(cc)
 }
